@@ -95,7 +95,18 @@ def digest_solution(sol):
 
 
 class Tracer(object):
-    """Counts 'line' events in frames of ExactPack source; optionally aborts at the n-th."""
+    """Counts the points of an operation at which CPython can really deliver an asynchronous exception
+    (KeyboardInterrupt from SIGINT) inside ExactPack code, and optionally aborts at the n-th.
+
+    CPython 3.12 polls for pending signals on function entry (RESUME), after a call returns and on loop back-edges --
+    not between arbitrary lines.  A first version aborted at arbitrary *line* events and raised a false alarm: an abort
+    on the re-traced ``with`` line at the normal exit of ``print_when_verbose``'s ``with open(devnull) as f,
+    redirect_stdout(f)`` skipped redirect_stdout.__exit__ but not the file's, leaving sys.stdout closed -- a window in
+    which no real interrupt can arrive.  The abort points are therefore profile events: entry of a Python function
+    defined in ExactPack ('call'), its return ('return': the callee completed, the caller never sees the value), and
+    the return of a C function called from ExactPack code ('c_return').  Callbacks that scipy's Fortran makes into
+    ExactPack functions are 'call' events like any other.
+    """
 
     def __init__(self, abort_at=None):
         self.n = 0
@@ -104,19 +115,17 @@ class Tracer(object):
         self.fired = False
         self.prefix = world.src_root() + os.sep + "exactpack" + os.sep
 
-    def glob(self, frame, event, arg):
-        if frame.f_code.co_filename.startswith(self.prefix):
-            return self.local
-        return None
-
-    def local(self, frame, event, arg):
-        if event == "line":
-            self.n += 1
-            if self.abort_at is not None and self.n == self.abort_at and not self.fired:
-                self.fired = True
-                self.where = (frame.f_code.co_filename[len(self.prefix):], frame.f_lineno, frame.f_code.co_name)
-                raise KeyboardInterrupt("injected abort at line event %d" % self.n)
-        return self.local
+    def prof(self, frame, event, arg):
+        if event not in ("call", "return", "c_return"):
+            return
+        if not frame.f_code.co_filename.startswith(self.prefix):
+            return
+        self.n += 1
+        if self.abort_at is not None and self.n == self.abort_at and not self.fired:
+            self.fired = True
+            self.where = (frame.f_code.co_filename[len(self.prefix):], frame.f_lineno,
+                          frame.f_code.co_name + ":" + event + (":" + getattr(arg, "__name__", "?") if event == "c_return" else ""))
+            raise KeyboardInterrupt("injected abort at interrupt point %d" % self.n)
 
 
 class Env(object):
@@ -397,19 +406,19 @@ def run_history(spec, want_state=False):
                 SEAM.dep_mode = f.get("mode", "before")
                 SEAM.dep_exc = f.get("exc", "RuntimeError")
             elif f["kind"] == "abort":
-                tracer = Tracer(abort_at=int(f["line"]))
+                tracer = Tracer(abort_at=int(f.get("at", f.get("line"))))
             elif f["kind"] == "devnull":
                 SEAM.devnull_fail = True
         if tracer is None and i in trace_steps:
             tracer = Tracer()
         if tracer is not None:
-            sys.settrace(tracer.glob)
+            sys.setprofile(tracer.prof)
         try:
             try:
                 out = DISPATCH[op["op"]](env, op)
             finally:
                 if tracer is not None:
-                    sys.settrace(None)
+                    sys.setprofile(None)
         except BaseException as e:  # noqa  (KeyboardInterrupt from an injected abort included)
             out = ("exc", type(e).__name__, str(e)[:200], isinstance(e, world.InjectedFault))
         if SEAM.dep_fired:
